@@ -25,8 +25,13 @@
      *_r        the same functions with Qred after every arithmetic step: identical values up to ==
                 (PQV: qmul_r_eq, rot_impl_r_eq, ...), meant for vm_compute in correspondence shards,
                 where un-normalised fractions would otherwise grow exponentially along a chain
+     literals   fpp m e = m*2^e, fpn m e = m/2^e, fnp m e = -m*2^e, fnn m e = -m/2^e with m, e primitive
+                63-bit integers: how the harness writes an IEEE double exactly (Coq parses primitive integers
+                about 10x faster than Z / positive numerals, which dominated the shard time)
+     rot_parts_r / rot_parts_inv_r / apply_parts_r   fastest exact evaluation of rot_impl q * v and
+                rot_impl (qinv q) * v (common denominator); see the comment at their definition
      tolerance  close_abs tol scale a b  :=  |a - b| <= tol * scale   (bool, in Q) and its liftings *)
-From Coq Require Import QArith Qabs Qminmax Qreduction Bool List.
+From Coq Require Import QArith Qabs Qminmax Qreduction Bool List Uint63.
 Import ListNotations.
 Local Open Scope Q_scope.
 
@@ -190,3 +195,52 @@ Definition mvmul_r (a : mat) (v : vec) : vec :=
   mkV (radd (radd (rmul (m00 a) (vx v)) (rmul (m01 a) (vy v))) (rmul (m02 a) (vz v)))
       (radd (radd (rmul (m10 a) (vx v)) (rmul (m11 a) (vy v))) (rmul (m12 a) (vz v)))
       (radd (radd (rmul (m20 a) (vx v)) (rmul (m21 a) (vy v))) (rmul (m22 a) (vz v))).
+
+(* ------------------------------------------------------------------ numerator / denominator form
+   Cheapest exact evaluation of  rot_impl q * v : all nine entries of the matrix share one denominator d
+   (1 in the unit branch, n2 q otherwise), so  rot_impl q * v = (M * v) / d  with M = rotNd d q free of
+   divisions; for doubles M * v stays dyadic (reduction is linear time) and only three real gcds remain.
+   PQV.apply_parts_r_eq :  n2 q <> 0 -> apply_parts_r (rot_parts_r q) v =v= mvmul (rot_impl q) v
+   PQV.apply_parts_inv_r_eq : the same for rot_impl (qinv q), the matrix taken by inverse(). *)
+Definition rotNd (d : Q) (q : quat) : mat :=
+  let w := qw q in let x := qx q in let y := qy q in let z := qz q in
+  mkM (d - 2 * (y * y + z * z)) (2 * (x * y - z * w))     (2 * (x * z + y * w))
+      (2 * (x * y + z * w))     (d - 2 * (x * x + z * z)) (2 * (y * z - x * w))
+      (2 * (x * z - y * w))     (2 * (y * z + x * w))     (d - 2 * (x * x + y * y)).
+Definition rotNd_r (d : Q) (q : quat) : mat :=
+  let w := qw q in let x := qx q in let y := qy q in let z := qz q in
+  let xx := rmul x x in let yy := rmul y y in let zz := rmul z z in
+  let xy := rmul x y in let xz := rmul x z in let yz := rmul y z in
+  let xw := rmul x w in let yw := rmul y w in let zw := rmul z w in
+  mkM (rsub d (rmul 2 (radd yy zz))) (rmul 2 (rsub xy zw))          (rmul 2 (radd xz yw))
+      (rmul 2 (radd xy zw))          (rsub d (rmul 2 (radd xx zz))) (rmul 2 (rsub yz xw))
+      (rmul 2 (rsub xz yw))          (rmul 2 (radd yz xw))          (rsub d (rmul 2 (radd xx yy))).
+(* (M, d) with rot_impl q == M / d *)
+Definition rot_parts_r (q : quat) : mat * Q :=
+  let n := n2_r q in
+  if Qlt_bool (Qabs (n - 1)) band then (rotNd_r 1 q, 1) else (rotNd_r n q, n).
+(* (M, d) with rot_impl (qinv q) == M / d : the squared norm of qinv q is 1/n, and its matrix is that of
+   conj q with denominator n (normalising branch) or n^2 (unit branch) *)
+Definition rot_parts_inv_r (q : quat) : mat * Q :=
+  let n := n2_r q in
+  let d := if Qlt_bool (Qabs (/ n - 1)) band then rmul n n else n in
+  (rotNd_r d (qconj q), d).
+(* the quotient is left un-reduced: it is the end result of a call and is only compared *)
+Definition apply_parts_r (md : mat * Q) (v : vec) : vec :=
+  let u := mvmul_r (fst md) v in
+  mkV (vx u / snd md) (vy u / snd md) (vz u / snd md).
+(* qinv with the squared norm computed in lowest terms and the quotients left un-reduced *)
+Definition qinv_n (q : quat) : quat :=
+  let n := n2_r q in mkQ (qw q / n) (- qx q / n) (- qy q / n) (- qz q / n).
+
+(* ------------------------------------------------------------------ exact literals for IEEE doubles
+   A finite double is (+/-) m * 2^(+/-)e with m < 2^53; harness/props/c05.py (_cf) writes it with these. *)
+Definition pow2 (e : int) : positive := Z.to_pos (Z.shiftl 1 (Uint63.to_Z e)).
+Definition fpp (m e : int) : Q := Qmake (Z.shiftl (Uint63.to_Z m) (Uint63.to_Z e)) 1.
+Definition fpn (m e : int) : Q := Qmake (Uint63.to_Z m) (pow2 e).
+Definition fnp (m e : int) : Q := Qmake (- Z.shiftl (Uint63.to_Z m) (Uint63.to_Z e)) 1.
+Definition fnn (m e : int) : Q := Qmake (- Uint63.to_Z m) (pow2 e).
+Arguments fpp (_ _)%uint63.
+Arguments fpn (_ _)%uint63.
+Arguments fnp (_ _)%uint63.
+Arguments fnn (_ _)%uint63.
